@@ -36,6 +36,9 @@ func init() {
 			{"C13/default-keys", "the session keys substituted when none are configured are drawn symbol by symbol from crypto/rand (C18's generator rule)", func(c *Ctx) { c18CSPRNGAs(c, "C13/default-keys") }},
 			{"C13/key-defaults", "config.Load's defaults carry no value for the session keys: a built-in key would pass the length test and be the same on every installation", func(c *Ctx) { keyDefaults(c, "C13/key-defaults", []string{"Server.SessionKey", "Server.SessionEncryptionKey"}) }},
 			{"C13/mirror", "identity Marshal/Unmarshal copy the same fields both ways and cover every field", c13Mirror},
+			{"C13/config-tags", "the configuration fields this property depends on are read from the documented keys: koanf tag = lower-cased field name", func(c *Ctx) { configTags(c, "C13/config-tags", map[string][]string{"Configuration": {"Server", "OpenId"}, "ServerConfig": {"SessionKey", "SessionEncryptionKey", "SessionStore", "MaxSessionLength"}, "OpenIDConfig": {"ProviderUrl", "ClientId", "ClientSecret"}}) }},
+			{"C13/decode-target", "a stored identity is decoded into a fresh zero value (gob omits zero fields)", func(c *Ctx) { gobTargetFresh(c, "C13/decode-target") }},
+			{"C13/username-claim", "the user name is a claim of the verified ID token that is a string (checked assertion)", func(c *Ctx) { stringClaim(c, "C13/username-claim") }},
 		},
 	})
 }
